@@ -1448,5 +1448,7 @@ func runC15(c *core.Ctx) {
 	}
 	if part != "" {
 		c.Note("VERIF_C15_PART=%s: only that part was run", part)
+	} else if f, ok := extra["C15"]; ok {
+		f(c)
 	}
 }
